@@ -18,6 +18,11 @@ variable {α : Type} [DecidableEq α]
 
 /-! ## OneToOne -/
 
+/-- OneToOne is a `dict` subclass; the model sends every mutating dict method through the paired-write code.
+    That is only right if the class body overrides each of them (an inherited one writes one side only - `|=`
+    before d30f0de): `Generated.otoDefined` is regenerated from the class body on every run -/
+theorem oto_all_mutators_overridden : ∀ n ∈ dictMutators, n ∈ Generated.otoDefined := by decide
+
 /-- MAIN: after any history, every instance satisfies the invariant (unique keys on both
     sides, `fwd[k] = v ↔ inv[v] = k`) -/
 theorem oto_invariant (cmds : List (OtoCmd α)) (regs : List (OTO α))
@@ -312,12 +317,34 @@ theorem hm2m_refines_partial (cmds : List (M2MCmd α)) (st : HState α)
     m2mRun [] cmds = some st.abs :=
   hm2mRun_sim cmds HSep.empty hns h
 
-/-- … so the heap-level instances satisfy the invariant too: same pairs transposed, no empty entry -/
-theorem hm2m_invariant_partial (cmds : List (M2MCmd α)) (st : HState α)
-    (h : hm2mRun HState.empty cmds = some st) (hns : ∀ c ∈ cmds, c.NoSelfUpdate) :
-    ∀ s ∈ st.regs, (s.abs st.heap).WF := by
+/-- MAIN (heap level): after ANY history - self-updates `x.update(x)` / `x.update(x.inv)` included, which are
+    handled on their own (`x.update(x)` changes nothing; `x.update(x.inv)` is `selfMerge`) - every instance, read
+    through its references, satisfies the invariant: unique keys, no empty and no duplicated set element,
+    `v ∈ data[k] ↔ k ∈ inv[v]` -/
+theorem hm2m_invariant (cmds : List (M2MCmd α)) (st : HState α)
+    (h : hm2mRun HState.empty cmds = some st) : ∀ s ∈ st.regs, (s.abs st.heap).WF := by
   intro s hs
-  exact m2m_invariant cmds st.abs (hm2m_refines_partial cmds st h hns) _ (List.mem_map_of_mem (f := HInst.abs st.heap) hs)
+  exact hm2mRun_wf cmds HSep.empty (fun _ hm => by simp [HState.abs, HState.empty] at hm) h _
+    (List.mem_map_of_mem (f := HInst.abs st.heap) hs)
+
+/-- … hence, at heap level too, `iteritems()` of the two sides yield exactly the same pairs transposed, with no
+    empty entry on either side -/
+theorem hm2m_same_pairs_transposed (cmds : List (M2MCmd α)) (st : HState α)
+    (h : hm2mRun HState.empty cmds = some st) (s : HInst α) (hs : s ∈ st.regs) (k v : α) :
+    ((k, v) ∈ iteritems (deref st.heap s.data) ↔ (v, k) ∈ iteritems (deref st.heap s.inv)) ∧
+    (∀ p ∈ deref st.heap s.data, p.2 ≠ []) ∧ (∀ p ∈ deref st.heap s.inv, p.2 ≠ []) := by
+  have w := hm2m_invariant cmds st h s hs
+  refine ⟨?_, w.gd.ne_of_mem, w.gi.ne_of_mem⟩
+  show (k, v) ∈ iteritems (s.abs st.heap).data ↔ (v, k) ∈ iteritems (s.abs st.heap).inv
+  rw [mem_iteritems w.gd, mem_iteritems w.gi]
+  exact w.transpose k v
+
+/-- what `x.update(x.inv)` leaves in `x`: the union of the relation and its transpose -/
+theorem hm2m_self_update_spec (A : M2M α) (w : A.WF) (a x : α) :
+    (selfMerge A).WF ∧ (x ∈ getSet a (selfMerge A).data ↔ x ∈ getSet a A.data ∨ x ∈ getSet a A.inv) := by
+  refine ⟨selfMerge_wf w, ?_⟩
+  show x ∈ getSet a (List.foldl _ A.data A.inv) ↔ _
+  rw [foldMerge_mem, w.gi.exists_iff]
 
 /-! non-vacuity: build, replace onto an existing key, copy through the inverse side, update the copy from its own
     inverse, mutate the source: four set objects for instance 0 (cells 0 and 1 dropped by `replace` / `del`), six
@@ -327,6 +354,10 @@ example : hm2mRun (HState.empty : HState Nat)
      .updateFrom 1 false 1 true, .op 0 true (.delitem 5)]
     = some ⟨[[5], [2], [6], [2], [2], [2], [5, 6], [5, 6], [2], [2]],
             [⟨[(2, 2)], [(6, 3)]⟩, ⟨[(5, 4), (6, 5), (2, 7)], [(2, 6), (5, 8), (6, 9)]⟩]⟩ := by decide
+/-- a history WITH self-updates through both sides: covered by `hm2m_separation` / `hm2m_invariant` -/
+example : (hm2mRun (HState.empty : HState Nat)
+    [.new [(1, 5), (2, 6)], .updateFrom 0 false 0 true, .updateFrom 0 true 0 true, .op 0 true (.remove 5 1)]).map HState.abs
+    = some [⟨[(2, [6]), (5, [1]), (6, [2])], [(6, [2]), (1, [5]), (2, [6])]⟩] := by decide
 /-- the hypothesis `NoSelfUpdate` on a history that copies and cross-updates -/
 example : ∀ c ∈ ([.new [(1, 5)], .newFrom 0 true, .updateFrom 1 false 0 true, .op 0 true (.delitem 5)] : List (M2MCmd Nat)),
     c.NoSelfUpdate := by decide
